@@ -334,30 +334,46 @@ fn gen_history(out: &mut Out, rng: &mut Rng) {
     let growth: u128 = *rng.pick(&[0u128, 1, DEC_ONE / 2, DEC_ONE, DEC_ONE, 333_333_333_333_333_333]);
     let mut x = Exec::new(period, growth);
     let mut t = GENESIS_DEFAULT;
-    let len = 6 + rng.below(22);
+    let len = 8 + rng.below(30);
     let with_epochs = rng.chance(1, 3);
     let big = rng.chance(1, 5);
     for _ in 0..len {
         // time: mostly the same block or tiny steps, sometimes around the unbonding period / a day
         let p = period.min(10 * DAY_NS);
-        let dt: u64 = match rng.below(12) {
-            0..=4 => 0,
-            5 => 1,
-            6 => p.saturating_sub(1),
-            7 => p,
-            8 => p.saturating_add(1),
-            9 => NS,
-            10 => DAY_NS,
+        let dt: u64 = match rng.below(14) {
+            0..=5 => 0,
+            6 => 1,
+            7 => p.saturating_sub(1),
+            8 | 9 => p,
+            10 => p.saturating_add(1),
+            11 => NS,
+            12 => DAY_NS,
             _ => rng.below(3 * NS),
         };
         t = t.saturating_add(dt).min(u64::MAX / 2);
-        let who = rng.below(3) as usize;
-        let denom = if rng.chance(1, 14) { 2 } else { rng.below(2) as usize };
-        let bonded_now = x.w.q_bonded(U[who]).map(|r| asset_amount(&r.bonded_assets, D[denom.min(1)])).unwrap_or(0);
-        let e = match rng.below(if with_epochs { 14 } else { 11 }) {
+        x.w.set_time(t);
+        // what the state offers (so that most calls are meaningful); a share of the choices stays blind
+        let mut bonded = [[0u128; 2]; 3];
+        let mut recs: Vec<(usize, usize)> = vec![];
+        let mut holders: Vec<(usize, usize)> = vec![];
+        for u in 0..3 {
+            let b = x.w.q_bonded(U[u]).map(|r| r.bonded_assets).unwrap_or_default();
+            for d in 0..2 {
+                bonded[u][d] = asset_amount(&b, D[d]);
+                if bonded[u][d] > 0 { holders.push((u, d)); }
+                if x.w.q_unbonding(U[u], D[d], 1).map(|r| !r.unbonding_requests.is_empty()).unwrap_or(false) { recs.push((u, d)); }
+            }
+        }
+        let blind = rng.chance(1, 6);
+        let mut who = rng.below(3) as usize;
+        let mut denom = if rng.chance(1, 14) { 2 } else { rng.below(2) as usize };
+        let cur = x.w.q_current_epoch();
+        let stale = cur.id.u64() != 0 && (t / NS) - cur.start_time.seconds() > 86_400;
+        let kind = if with_epochs && stale && rng.chance(2, 3) { 11 } else { rng.below(if with_epochs { 14 } else { 11 }) };
+        let e = match kind {
             0..=2 => {
                 let amount = if big { magnitude(rng, 124) } else { magnitude(rng, 64) };
-                let funds = match rng.below(14) {
+                let funds = match rng.below(16) {
                     0 => vec![],
                     1 => vec![(denom, amount.saturating_add(1))],
                     2 => vec![((denom + 1) % 3, amount)],
@@ -367,20 +383,31 @@ fn gen_history(out: &mut Out, rng: &mut Rng) {
                 Ev::Bond { who, native: !rng.chance(1, 25), denom, amount, funds }
             }
             3..=6 => {
-                let amount = match rng.below(8) {
+                if !blind && !holders.is_empty() { let h = *rng.pick(&holders); who = h.0; denom = h.1; }
+                let b = if denom < 2 { bonded[who][denom] } else { 0 };
+                let amount = match rng.below(10) {
                     0 => 0,
-                    1 => bonded_now,
-                    2 => bonded_now.saturating_add(1),
+                    1 => b,
+                    2 => b.saturating_add(1),
                     3 => 1,
-                    _ => if bonded_now > 0 { 1 + rng.below128(bonded_now) } else { magnitude(rng, 32) },
+                    _ => if b > 0 { 1 + rng.below128(b) } else { magnitude(rng, 32) },
                 };
                 Ev::Unbond { who, native: !rng.chance(1, 30), denom, amount }
             }
-            7..=9 => Ev::Withdraw { who, denom },
+            7..=9 => {
+                if !blind && !recs.is_empty() { let h = *rng.pick(&recs); who = h.0; denom = h.1; }
+                Ev::Withdraw { who, denom }
+            }
             10 => Ev::Donate { denom, amount: if rng.chance(1, 6) { 0 } else { magnitude(rng, 40) } },
             11 | 12 => Ev::NewEpoch { fee: if rng.chance(1, 5) { 0 } else { magnitude(rng, 60) } },
             _ => Ev::Claim { who },
         };
+        // an address whose guard is up claims first, most of the time
+        if let Ev::Bond { who, .. } | Ev::Unbond { who, .. } = &e {
+            if with_epochs && rng.chance(3, 4) && x.w.q_claimable(U[*who]).map(|v| !v.is_empty()).unwrap_or(false) {
+                x.exec(out, t, &Ev::Claim { who: *who });
+            }
+        }
         x.exec(out, t, &e);
         // a second unbond in the very same block (the corner DESIGN lists)
         if let Ev::Unbond { who, native, denom, amount } = &e {
